@@ -158,89 +158,175 @@ def extract(repo):
 
 
 # ---------------------------------------------------------------------------------------------------------------------
-# structural summary: per listed function, the BAG of operations on (potentially) shared state, helpers inlined
+# structural summary: per ENTRY POINT of the hand-off protocol (the listed functions), the SET of operations on shared
+# state it can perform — over the transitive closure of the calls it makes inside these files
 #
-# The statement texts above change with every refactoring (a helper extracted, a local alias, an early return).  What the
-# model depends on is WHICH operations a function performs on shared objects; their order and the conditions under which
-# they happen are tied dynamically (harness/c07.py: every operation executed on a shared object must be the model's next
-# action of that thread).  So the obligation compared with the model by `decide` is this summary, which is invariant under
-# local renames, log calls, reordering of branches and extraction of helpers (inlined up to depth 3):
-#   method calls named like an operation of a deque / set / lock / event / queue / pinger / thread ("append", "ping", ...),
-#   `with` (acquire+release), `in` (contains), len(), attribute stores ("write:attr"), creation of objects ("new:Class"),
-#   yield / raise / assert, and calls of other listed functions ("call:name").
+# The statement texts above change with every refactoring.  What the model depends on is WHICH operations an entry point
+# performs on WHICH shared object; order and conditions are tied dynamically (harness/c07.py: every operation executed on a
+# shared object must be the model's next action of that thread).  The obligation compared with the model by `decide`
+# (`Pox.C07.ops_agree`) is this summary.  An element is "op@role":
+#   * op    a method named like an operation of a deque / set / dict / lock / event / queue / pinger / thread (called, or
+#           picked as a bound method: `enq = q.appendleft if first else q.append`), `with`, `contains` (in / not in),
+#           `write` (attribute store), `new` (creation of an object of a class of these files), `call` (a method name that
+#           several classes of these files define: dynamic dispatch, not followed), and the bare "yield", "raise", "assert";
+#   * role  the shared object: the last attribute name of the receiver (`self._scheduler._ready` -> `_ready`,
+#           `self.syncer.inlock` -> `inlock`), seen through local aliases (`ready = self._ready`), through parameters bound at
+#           the followed call (`self._select(self._tasks, {})`), a global name (`os`) as itself; operations on purely local
+#           objects (lists / dicts built in the function, parameters of unknown origin) are NOT shared state and are left out;
+#           for `write` the role is the attribute written, and attributes that nothing in the package ever reads (debug
+#           counters) are not shared state either.
+# Calls of functions / methods defined exactly once in these files are FOLLOWED (any depth, cycle-safe, across classes), so a
+# helper split off an entry point, merged loops, renamed locals, reordered branches, a log helper leave the set unchanged.
 SHARED_OPS = {"append", "appendleft", "popleft", "pop", "remove", "clear", "extend", "extendleft", "insert", "rotate", "add", "discard",
-              "update", "put", "get", "get_nowait", "put_nowait", "empty", "qsize", "set", "wait", "is_set", "acquire", "release", "locked",
-              "ping", "pongAll", "pong_all", "pong", "select", "start", "join", "read", "write", "setdefault", "popitem", "notify",
-              "notify_all", "notifyAll"}
-LISTED_NAMES = {q.split(".")[-1] for _, q in FUNCTIONS}
-INLINE_DEPTH = 3
+              "update", "put", "get_nowait", "put_nowait", "empty", "qsize", "set", "wait", "is_set", "acquire", "release", "locked",
+              "ping", "pongAll", "pong_all", "pong", "select", "join", "read", "write", "setdefault", "popitem", "notify",
+              "notify_all", "notifyAll", "get"}
+FILES = sorted({rel for rel, _ in FUNCTIONS})
+MAX_DEPTH = 40
 
 
-def _defs(tree):
-    """name -> [FunctionDef] for every function / method defined anywhere in the file"""
-    d = {}
-    for n in ast.walk(tree):
-        if isinstance(n, (ast.FunctionDef, ast.AsyncFunctionDef)):
-            d.setdefault(n.name, []).append(n)
-    return d
+class _World:
+    def __init__(self, repo):
+        self.trees, self.defs, self.classes = {}, {}, set()
+        for rel in FILES:
+            try:
+                t = ast.parse(open(os.path.join(repo, rel)).read())
+            except (OSError, SyntaxError):
+                t = None
+            self.trees[rel] = t
+            if t is None: continue
+            for n in ast.walk(t):
+                if isinstance(n, (ast.FunctionDef, ast.AsyncFunctionDef)): self.defs.setdefault(n.name, []).append(n)
+                elif isinstance(n, ast.ClassDef): self.classes.add(n.name)
+        # attribute names that are READ somewhere in the package (an attribute nobody reads is private bookkeeping)
+        self.read = set()
+        root = os.path.join(repo, "pox")
+        for dp, dn, fn in os.walk(root):
+            for f in fn:
+                if not f.endswith(".py"): continue
+                path = os.path.join(dp, f)
+                rel = os.path.relpath(path, repo)
+                try:
+                    t = self.trees[rel] if rel in self.trees and self.trees[rel] is not None else ast.parse(open(path, encoding="utf-8", errors="replace").read())
+                except (OSError, SyntaxError, ValueError):
+                    continue
+                for n in ast.walk(t):
+                    if isinstance(n, ast.Attribute) and isinstance(n.ctx, ast.Load): self.read.add(n.attr)
+                    elif isinstance(n, ast.Call) and isinstance(n.func, ast.Name) and n.func.id in ("getattr", "hasattr") \
+                            and len(n.args) >= 2 and isinstance(n.args[1], ast.Constant) and isinstance(n.args[1].value, str):
+                        self.read.add(n.args[1].value)
 
 
-def _ops_of(fn, defs, depth, seen, out):
-    alias = {}
-    for n in ast.walk(fn):                        # local aliases of bound methods / functions:  name = <expr>.attr  |  name = other
-        if isinstance(n, ast.Assign) and len(n.targets) == 1 and isinstance(n.targets[0], ast.Name):
-            if isinstance(n.value, ast.Attribute): alias[n.targets[0].id] = n.value.attr
-    def visit(n):
+def _params(fn):
+    a = fn.args
+    return [x.arg for x in a.posonlyargs + a.args]
+
+
+def _summarise(w, fn, env, out, seen, depth):
+    """add the elements of `fn` (with parameter roles `env`) to the set `out`"""
+    k = (id(fn), tuple(sorted(env.items())))
+    if k in seen or depth > MAX_DEPTH: return
+    seen.add(k)
+    local = set(_params(fn))
+    if fn.args.vararg: local.add(fn.args.vararg.arg)
+    if fn.args.kwarg: local.add(fn.args.kwarg.arg)
+    for n in ast.walk(fn):
+        if isinstance(n, ast.Name) and isinstance(n.ctx, ast.Store): local.add(n.id)
+    env = dict(env)
+
+    def role(e):
+        if isinstance(e, ast.Attribute): return e.attr
+        if isinstance(e, ast.Name):
+            if e.id in env: return env[e.id]
+            return None if e.id in local else e.id                  # a global (module, module-level object) is its own role
+        if isinstance(e, ast.Subscript): return role(e.value)
+        if isinstance(e, ast.IfExp):
+            a, b = role(e.body), role(e.orelse)
+            return a if a == b else None
+        if isinstance(e, ast.NamedExpr): return role(e.value)
+        return None
+
+    for _ in range(3):                                               # local aliases (chains up to length 3), flow-insensitive
+        for n in ast.walk(fn):
+            if isinstance(n, ast.Assign) and len(n.targets) == 1 and isinstance(n.targets[0], ast.Name):
+                r = role(n.value)
+                if r is not None and n.targets[0].id not in env: env[n.targets[0].id] = r
+
+    def follow(name, call):
+        d = w.defs[name][0]
+        ps = _params(d)
+        cenv = {}
+        if call is not None:
+            args = list(call.args)
+            if isinstance(call.func, ast.Attribute) and ps: ps = ps[1:]          # bound call: the receiver is the first parameter
+            for p_, a_ in zip(ps, args):
+                if isinstance(a_, ast.Starred): break
+                r = role(a_)
+                if r is not None: cenv[p_] = r
+            for kw in call.keywords:
+                if kw.arg is not None:
+                    r = role(kw.value)
+                    if r is not None: cenv[kw.arg] = r
+        _summarise(w, d, cenv, out, seen, depth + 1)
+
+    def named(name, node, call):
+        """a reference to the function / method / class `name` (called through `call`, or just picked)"""
+        r = role(node.value) if isinstance(node, ast.Attribute) and name in SHARED_OPS else None
+        if r is not None:
+            out.add("%s@%s" % (name, r))
+        elif name in w.classes:
+            if call is not None: out.add("new@" + name)
+        elif len(w.defs.get(name, ())) == 1:
+            follow(name, call)
+        elif name in w.defs:
+            out.add("call@" + name)
+
+    def visit(n, call_of=None):
         if isinstance(n, (ast.FunctionDef, ast.AsyncFunctionDef, ast.ClassDef, ast.Lambda)) and n is not fn:
-            return                                   # nested definitions are summarised where they are called
+            return
         if isinstance(n, (ast.With, ast.AsyncWith)):
-            out.extend(["with"] * len(n.items))
+            for it in n.items:
+                r = role(it.context_expr)
+                if r is not None: out.add("with@" + r)
         elif isinstance(n, ast.Compare):
-            out.extend("contains" for o in n.ops if isinstance(o, (ast.In, ast.NotIn)))
-        elif isinstance(n, (ast.Yield, ast.YieldFrom)): out.append("yield")
-        elif isinstance(n, ast.Raise): out.append("raise")
-        elif isinstance(n, ast.Assert): out.append("assert")
-        elif isinstance(n, (ast.Assign, ast.AugAssign, ast.AnnAssign)):
-            tg = n.targets if isinstance(n, ast.Assign) else [n.target]
-            for t in tg:
-                for e in ast.walk(t):
-                    if isinstance(e, ast.Attribute) and isinstance(e.ctx, ast.Store): out.append("write:" + e.attr)
+            for o, c in zip(n.ops, n.comparators):
+                if isinstance(o, (ast.In, ast.NotIn)):
+                    r = role(c)
+                    if r is not None: out.add("contains@" + r)
+        elif isinstance(n, (ast.Yield, ast.YieldFrom)): out.add("yield")
+        elif isinstance(n, ast.Raise): out.add("raise")
+        elif isinstance(n, ast.Assert): out.add("assert")
         elif isinstance(n, ast.Call):
             f = n.func
-            name = f.attr if isinstance(f, ast.Attribute) else alias.get(f.id, f.id) if isinstance(f, ast.Name) else None
-            method = isinstance(f, ast.Attribute) or (isinstance(f, ast.Name) and f.id in alias)
-            if name is not None and not (_root(f) in NOISE):
-                if name == "len" and isinstance(f, ast.Name): out.append("len")
-                elif name in SHARED_OPS and method: out.append(name)
-                elif name in SHARED_OPS: pass                                           # a builtin such as set()
-                elif name in LISTED_NAMES: out.append("call:" + name)
-                elif name[:1].isupper() and not name.endswith(("Error", "Exception", "Exit")): out.append("new:" + name)
-                elif len(defs.get(name, [])) == 1 and depth < INLINE_DEPTH and name not in seen:
-                    _ops_of(defs[name][0], defs, depth + 1, seen | {name}, out)        # a helper: its operations are the caller's
+            if isinstance(f, ast.Attribute) and _root(f) not in NOISE: named(f.attr, f, n)
+            elif isinstance(f, ast.Name) and f.id not in local: named(f.id, f, n)
+            for ch in ast.iter_child_nodes(n):
+                visit(ch, call_of=n if ch is f else None)
+            return
+        elif isinstance(n, ast.Attribute):
+            if isinstance(n.ctx, ast.Store):
+                if n.attr in w.read: out.add("write@" + n.attr)
+            elif call_of is None and _root(n) not in NOISE:
+                named(n.attr, n, None)                               # a bound method picked without calling it (yet)
         for ch in ast.iter_child_nodes(n):
             visit(ch)
+
     for st in fn.body:
         visit(st)
 
 
 def ops(repo):
-    """-> [(key, sorted [(op, count)])] for the listed functions"""
-    trees, res = {}, []
+    """-> [(key, sorted set of "op@role")] for the entry points"""
+    w = _World(repo)
+    res = []
     for rel, qual in FUNCTIONS:
-        if rel not in trees:
-            try:
-                trees[rel] = ast.parse(open(os.path.join(repo, rel)).read())
-            except (OSError, SyntaxError):
-                trees[rel] = None
-        tree = trees[rel]
+        tree = w.trees.get(rel)
         fn = _find(tree, qual) if tree is not None else None
         if fn is None:
-            res.append((key(rel, qual), [("<function not found>", 1)])); continue
-        out = []
-        _ops_of(fn, _defs(tree), 0, {fn.name}, out)
-        bag = {}
-        for o in out: bag[o] = bag.get(o, 0) + 1
-        res.append((key(rel, qual), sorted(bag.items())))
+            res.append((key(rel, qual), ["<function not found>"])); continue
+        out = set()
+        _summarise(w, fn, {}, out, set(), 0)
+        res.append((key(rel, qual), sorted(out)))
     return res
 
 
@@ -263,10 +349,10 @@ def render(repo):
         rows.append("  (%s, [\n%s])" % (lean_str(key(rel, qual)),
                                         ",\n".join("      " + lean_str(t) for t, _ in sts)))
     lines.append(",\n".join(rows))
-    lines += ["]", "", "/-- per function: the bag of operations on shared state, helpers inlined (see harness/translate/sites.py) -/",
-              "def ops : List (String × List (String × Nat)) := ["]
-    lines.append(",\n".join("  (%s, [%s])" % (lean_str(k), ", ".join("(%s, %d)" % (lean_str(o), c) for o, c in bag))
-                            for k, bag in ops(repo)))
+    lines += ["]", "", "/-- per entry point: the set of operations on shared state (op@role) over the closure of its calls (harness/translate/sites.py) -/",
+              "def ops : List (String × List String) := ["]
+    lines.append(",\n".join("  (%s, [%s])" % (lean_str(k), ", ".join(lean_str(o) for o in els))
+                            for k, els in ops(repo)))
     lines += ["]", "", "end Pox.Generated.Sites", ""]
     return "\n".join(lines), ex
 
